@@ -70,6 +70,11 @@ func (g *c01Gen) valueRecipe() mj.Recipe {
 		if g.plainOnly {
 			return mj.RStr(genSpecialString(g.t, "sval"))
 		}
+		if g.n(0, 3, "unexportedField") == 0 {
+			// a reflect.Value taken from an unexported struct field and put into the VarMap as it is (it cannot be
+			// turned into an interface{}, but it is a string like any other for the printer and the escaper)
+			return mj.Recipe{T: "unexported-string", S: genSpecialString(g.t, "unexp")}
+		}
 		if g.n(0, 1, "rendChunked") == 0 {
 			// a Renderer that hands its text over in pieces, which may end inside a character, with or without markup
 			// of its own (written to Runtime.Writer) after each piece
@@ -118,6 +123,10 @@ func (g *c01Gen) valueExpr(scopeNames []string) (*mj.Expr, mj.Recipe, string) {
 		nm := scopeNames[g.n(0, len(scopeNames)-1, "scoped")]
 		return mj.Var(nm), mj.Recipe{T: "scoped"}, "scoped"
 	}
+	if r.T == "unexported-string" {
+		g.p.Vars[name] = r
+		return mj.Var(name), r, "var"
+	}
 	switch g.n(0, 4, "source") {
 	case 0:
 		if r.T == "string" {
@@ -158,7 +167,7 @@ func (g *c01Gen) renderSite(scopeNames []string) *mj.Node {
 	if !isString && (stage == "upper" || stage == "html" || stage == "upper|raw" || stage == "lower|safeHtml") {
 		stage = ""
 	}
-	if r.T == "renderer-write" || r.T == "rend-chunks" {
+	if r.T == "renderer-write" || r.T == "rend-chunks" || r.T == "unexported-string" {
 		stage = "" // rendered by its own method; not a value a pipeline can transform
 	}
 	g.sites = append(g.sites, src+":"+r.T+":"+stage)
@@ -397,7 +406,7 @@ func judgeC01(c c01Case) (v core.Verdict) {
 		v.Label("after-an-execution-into-a-broken-destination")
 	}
 	for _, r := range c.Prog.Vars {
-		if strings.ContainsAny(r.S, "<>&'\"") || r.T == "level" || r.T == "code" || r.T == "renderer-write" || r.T == "rend-chunks" || r.T == "nil*user" || r.T == "nilfunc" || r.T == "strholder" {
+		if strings.ContainsAny(r.S, "<>&'\"") || r.T == "level" || r.T == "code" || r.T == "renderer-write" || r.T == "rend-chunks" || r.T == "unexported-string" || r.T == "nil*user" || r.T == "nilfunc" || r.T == "strholder" {
 			special = true
 		}
 		if r.T == "longstring" || r.T == "straddle" {
@@ -441,7 +450,7 @@ func clipLong(s string) string {
 
 func TestC01(t *testing.T) {
 	core.Run(t, "C01",
-		"random nesting path (depth 0-5 of if/else/range/block/yield-with-content/default content/include/try/catch/exec, optionally under an extends layout) with 1-3 render sites per level; values (strings rich in < > & ' \" NUL multi-byte and pre-escaped entities, 4096-boundary long strings, ints, floats, bools, []byte, Stringer, error, slices, pointers, nil pointers and nil funcs (printed as <nil>), strings ending in the beginning of a multi-byte character, characters whose bytes straddle a 4096-byte piece boundary (U+2028 under safeJs), fmt.Stringer / error slots holding values that are Renderers too, a Renderer that writes through Runtime.Write) from literal / Execute variable / global / context sources; pipelines none/upper/html/raw/unsafe/safeHtml/safeJs/custom SafeWriter/prefix raw/chains; escaper default/nil/custom (byte-wise, non-idempotent); 1 case in 20 is a dump() / dump(n) / dump(name) action checked metamorphically against a Set without escaper; one extends case in three with the layout sitting in a Cache shared with a Set of another escaper that loaded it first; one case in four after an Execute of the same template into a destination that fails after 1-120 bytes; also: values that render themselves in pieces (each through Runtime.Write, pieces may end inside a character, optionally with markup of their own written to Runtime.Writer after every piece) and a Go function that writes through the Runtime it is handed; oracle = MiniJet reference interpreter, exact bytes; non-trivial = a value with a special byte and nesting depth >= 1",
+		"random nesting path (depth 0-5 of if/else/range/block/yield-with-content/default content/include/try/catch/exec, optionally under an extends layout) with 1-3 render sites per level; values (strings rich in < > & ' \" NUL multi-byte and pre-escaped entities, 4096-boundary long strings, ints, floats, bools, []byte, Stringer, error, slices, pointers, nil pointers and nil funcs (printed as <nil>), strings ending in the beginning of a multi-byte character, characters whose bytes straddle a 4096-byte piece boundary (U+2028 under safeJs), fmt.Stringer / error slots holding values that are Renderers too, a Renderer that writes through Runtime.Write) from literal / Execute variable / global / context sources; pipelines none/upper/html/raw/unsafe/safeHtml/safeJs/custom SafeWriter/prefix raw/chains; escaper default/nil/custom (byte-wise, non-idempotent); 1 case in 20 is a dump() / dump(n) / dump(name) action checked metamorphically against a Set without escaper; one extends case in three with the layout sitting in a Cache shared with a Set of another escaper that loaded it first; one case in four after an Execute of the same template into a destination that fails after 1-120 bytes; also: values that render themselves in pieces (each through Runtime.Write, pieces may end inside a character, optionally with markup of their own written to Runtime.Writer after every piece) and a Go function that writes through the Runtime it is handed; round 10: a reflect.Value taken from an unexported struct field put into the VarMap as it is; oracle = MiniJet reference interpreter, exact bytes; non-trivial = a value with a special byte and nesting depth >= 1",
 		genC01, judgeC01)
 }
 
